@@ -201,7 +201,7 @@ func (nh *NodeHost) GetNodeHostInfo(opt NodeHostInfoOption) *NodeHostInfo {
 		}
 		s := r.shard
 		si := ShardInfo{ShardID: id, ReplicaID: r.ID, ConfigChangeIndex: r.ccIndex, StateMachineType: s.smType,
-			LeaderID: s.leader, Term: s.term, IsLeader: s.leader == r.ID}
+			LeaderID: s.leader, Term: s.term} // IsLeader stays false: the real library (this version) never sets it (conformance fact)
 		if r.ccIndex == 0 {
 			si.Pending = true
 		} else {
